@@ -186,7 +186,9 @@ def build_formulas(cfg: dict, cliff: bool = True, name_map: dict | None = None,
             for t in terms[1:]:
                 ll = ll + t
             ll = -ll
-        ll = ll - 0.5  # keeps the log likelihood away from exactly 0 (reports divide by it)
+        # the constant keeps the log likelihood away from exactly 0 (reports divide by it); W-iter sets it to 0 for the
+        # sessions in which the perfect fit (log likelihood exactly 0.0) is one of the points evaluated
+        ll = ll + cfg.get('offset', -0.5)
         for fb in fixed:
             ll = ll + fb * v('one') * 0.01
     if cliff and cfg.get('cliff'):
@@ -230,7 +232,7 @@ def ref_loglike(cfg: dict, table, x: dict, per_row: bool = False, cliff: bool = 
             ch = int(row['choice']) - cfg['labels']
             val = us[ch] - lse - cfg['ridge'] * sum(b * b for b in vals)
         else:
-            val = -0.5
+            val = cfg.get('offset', -0.5)
             for i in range(cfg['K']):
                 d = vals[i] - cfg['coef'][i] * row[colname(cfg, cfg['assign'][i][1])]
                 val -= d * d
